@@ -45,6 +45,8 @@ def build(S, tier, seed):
                      dates.PARSE_LOOP: dates.parse_loop_annot(),
                      purge.PARSE_PATH_LOOP: purge.parse_path_loop_annot()})
     c03.build(S, tier, seed)
+    put.leaf_vcs(S)
+    purge.leaf_vcs(S)
     readers.list_reader_vc(S)
     trashdirs.scanner_vc(S)
     trashdirs.scanner_home_vc(S)
